@@ -957,6 +957,7 @@ class Interp:
             return v
         iota = ctx.fresh("iota", "int")
         ctx.assume(z3.And(iota >= 0, iota < V.Z(sq.n)), why="generic comprehension index")
+        ctx.fold_point(iota, sq.n)
         template = item(iota, first=True)
         return SSeq(sq.n, item, template, iota)
 
